@@ -136,7 +136,7 @@ class Execution:
 
 
 def execute(text, spec, inputs, extents, scalars=None, mode="plain",
-            log_updates=False, upd_cap=200000, extra_ns=None):
+            log_updates=False, upd_cap=200000, extra_ns=None, content_addressed=False):
     """Run emitted text on the model.  inputs in declared order."""
     ex = Execution()
     rec = Recorder()
@@ -181,7 +181,7 @@ def execute(text, spec, inputs, extents, scalars=None, mode="plain",
     ex.canvas = standins.CanvasEnv(rec)
     ns.update(ex.canvas.names())
     if mode == "metrics":
-        ex.metrics_env = standins.MetricsEnv(rec)
+        ex.metrics_env = standins.MetricsEnv(rec, content_addressed=content_addressed)
         ns.update(ex.metrics_env.names())
     if extra_ns:
         ns.update(extra_ns)
